@@ -158,7 +158,7 @@ def cases(rng, tier):
             continue
         field = ["random", "affine", "flow"][k % 3]
         nf = int(rng.integers(2, 7))
-        specs, times, truth = gen.series(rng, base, nf, field=field, amp_frac=float(rng.uniform(0.2, 0.9)))
+        specs, times, truth = gen.series(rng, base, nf, field=field, amp_frac=float(rng.uniform(0.2, 0.9)), zero_junction=bool(k % 2 == 0))
         yield specs, times, truth, f"s{k}/{field}"
 
 
